@@ -77,6 +77,7 @@ def run_property(pid, build, tier="quick", seed=0, budget_ms=None, thorough_extr
     except ValueError: seed = 0
     os.makedirs(OUT, exist_ok=True); os.makedirs(os.path.join(VERIF, "evidence"), exist_ok=True)
     lines = []; exit_code = 0
+    if tier == "thorough": os.environ.setdefault("VERIF_CROSS", "1")
     try:
         res = build(REPO, tier, seed)
     except Unsupported as ex:
@@ -87,6 +88,10 @@ def run_property(pid, build, tier="quick", seed=0, budget_ms=None, thorough_extr
     if budget_ms is None: budget_ms = 12000 if tier == "quick" else 60000
     if obls and not getattr(res, "pre_discharged", False):
         solve.discharge(res.engine, obls, budget_ms=budget_ms)
+    cross = list(getattr(res, "cross", []) or [])
+    if tier == "thorough" and obls and not getattr(res, "pre_discharged", False):
+        try: cross.append({"group": "main", **solve.cross_check_many(res.engine, obls, max_n=300, seed=seed)})
+        except Exception as ex: cross.append({"group": "main", "error": repr(ex)})
     solver_s = round(sum(o.secs for o in obls), 2)
     known = load_known()
     canaries = [o for o in obls if o.expect_refuted]
@@ -140,6 +145,8 @@ def run_property(pid, build, tier="quick", seed=0, budget_ms=None, thorough_extr
         lines.append(f"  failed obligation: {rec['obligation']}" + (f" (+{len(rec['also'])} more on the same clause)" if rec["also"] else ""))
         if rp and rp.get("violated"): lines.append(f"  replayed on the real code: {json.dumps(rp.get('detail', rp))[:300]}")
     for oid, why in undecided[:40]: lines.append(f"UNDECIDED obligation={oid} {str(why)[:200]}")
+    for c in cross:
+        for oid in c.get("disagreed", []): disagreements.append(f"CROSS-SOLVER-DISAGREEMENT {oid}: proved by z3 5.1.0, `sat` by {c.get('solver')}")
     for d in disagreements: lines.append(d)
     if disagreements: exit_code = 3
     elif violations: exit_code = 1
@@ -171,6 +178,7 @@ def run_property(pid, build, tier="quick", seed=0, budget_ms=None, thorough_extr
         "per_obligation": [{"id": o.oid, "result": o.result, "backend": o.backend, "solver_s": o.secs} for o in real] if len(real) <= 400 else
                           [{"id": o.oid, "result": o.result, "backend": o.backend, "solver_s": o.secs} for o in real if o.result != "proved" or o.secs > 0.5],
         "engine_stats": getattr(res.engine, "stats", {}),
+        "cross_solver": cross,
         "notes": res.notes,
     }
     if res.bounded:
